@@ -44,6 +44,48 @@ META = {
  'C19_B': ('sd_vector copy constructor does not re-target m_high_0_select', 'copy construction of an EliasFanoPGMIndex, source destroyed or overwritten, key below the last segment key'),
  'C20_A': ('add_point: last_x not updated by the second point of a segment', 'the violating key is exactly the third point of a segment and still larger than its first key'),
  'C20_B': ('bulk-load constructor assigns item fields directly, bypassing the reserved-value check', 'reserved mapped value at position >= 1 of the bulk-load range'),
+# ---- round 2 (letters C, D): agents were told the round-1 ideas and asked for different sites and triggers
+ 'C01_C': ('segment_for_key: scan window starts at pos-(Epsilon+1) instead of pos-(EpsilonRecursive+1)', 'Epsilon < EpsilonRecursive, >= 2 levels, upper-level overshoot larger than Epsilon+1'),
+ 'C01_D': ('Segment::operator(): slope*(double(k)-double(key)) instead of the exact integer difference', '64-bit keys above 2^53 that are dense relative to the spacing of doubles'),
+ 'C02_C': ('segment_for_key binary-search branch: window end computed with Epsilon (same site as C07_B)', 'EpsilonRecursive above the threshold, Epsilon < EpsilonRecursive, many segments per level'),
+ 'C02_D': ('make_segmentation_par: last chunk no longer absorbs the remainder (same edit as C01_A)', 'chunked build, n % threads > Epsilon, tail keys off the trend'),
+ 'C03_C': ('integer intercept: key difference taken in the key type before widening (wraps for signed keys)', 'int32/int64 keys and one segment whose anchor is more than half the type range from its first key'),
+ 'C03_D': ('make_segmentation_par: last chunk no longer absorbs the remainder (same edit as C01_A)', 'chunked build, n % chunks != 0, tail off the trend'),
+ 'C04_C': ('build(): <= instead of < appends a redundant twin of the closing segment', 'the closing point forms a segment of its own; twin segment with the same key'),
+ 'C04_D': ('build(): upper levels segmented with min(Epsilon, EpsilonRecursive)', 'EpsilonRecursive > Epsilon and at least two levels'),
+ 'C05_C': ('pairwise_merge(): can_delete_permanently hoisted out of the loop as target == used_levels-1', 'three versions of a key on three levels and a cascade that ends at the deepest level'),
+ 'C05_D': ('lower_bound(): tombstones are recorded only while no candidate is held', 'live candidate from a newer level, tombstone on a middle level, stale copy deeper'),
+ 'C06_C': ('lower_bound(): scan bounded by the index window (same edit as C05_B)', 'indexed level and a tombstone run longer than the window; begin/size/empty build on it'),
+ 'C06_D': ('merge(): tombstone flag of the wrong operand (same edit as C05_A)', 'erase, flush into the existing last level, re-insert, flush again'),
+ 'C07_C': ('segment_for_key: std::min<uint32_t> makes a saturated prediction + intercept wrap', 'query in a huge gap after a dense region so that slope*distance >= 2^32 on an upper level, responsible segment not the first of its level'),
+ 'C07_D': ('c-interface PGMWrapper::search routes the unclamped key', 'C API only, queries strictly below the smallest key'),
+ 'C08_C': ('CompressedPGMIndex constructor: root_range read from the wrong level (always 1)', 'EpsilonRecursive above the threshold and more than EpsilonRecursive+3 segments below the root'),
+ 'C08_D': ('CompressedLevel::operator(): key difference computed in int64_t', 'uint64 keys, query >= 2^63 above its segment first key'),
+ 'C09_C': ('build_top_level: cell width BIT_WIDTH(segments.size()-1)', 'TopLevelBitSize = 0, segment vector length exactly 2^m, two segments in the last bucket'),
+ 'C09_D': ('build_top_level: power-of-two table one cell short', 'power-of-two TopLevelSize, key range an exact multiple of the bucket width, query for the last key'),
+ 'C10_C': ('sdsl select_support_mcl::init_fast: long-block width one bit too narrow', '>= 41k segments, dense cluster spanning a thousand buckets plus far outliers'),
+ 'C10_D': ('sdsl select_support_mcl::init_slow: sample loop j < instead of j <=', 'number of buckets or of segment keys congruent to 1 modulo 64'),
+ 'C11_C': ('segment_for_key binary-search branch: window end with Epsilon (same site as C07_B), shown through MappedPGMIndex', 'EpsilonRecursive above the threshold, Epsilon < EpsilonRecursive, irregular keys'),
+ 'C11_D': ('make_segmentation: successor-point guard in(i)+2 < in(i+1)', 'duplicate run longer than 2*Epsilon followed by x+2, query x+1'),
+ 'C12_C': ('#pragma pack(4) for PGMIndex::Segment: padding bytes for keys narrower than 4 bytes', 'int16 keys: the two construction paths write different (uninitialised) padding bytes'),
+ 'C12_D': ('raw-file constructor unmaps the input with file_bytes instead of in_bytes', 'raw input whose size is a multiple of the page size (or within header_bytes of it) and another container mapped just above'),
+ 'C13_C': ('RangeIterator::advance: loop condition *it < zmax', 'a stored point exactly on the max corner of the box'),
+ 'C13_D': ('bigmin(): loop stops before bit 0', '> 64 misses, the 65th at the cell left of an odd box minimum'),
+ 'C14_C': ('make_segmentation_par: last chunk no longer absorbs the remainder (same edit as C01_A), shown through contains()', '> 2^15 points, chunked build, n % chunks > Epsilon, far tail codes'),
+ 'C14_D': ('build(): upper levels only while last_n > 2', 'exactly two bottom segments and EpsilonRecursive > 0'),
+ 'C15_C': ('insert(): in-place overwrite only when the buffer has room', 'buffer exactly full and an update of a key already in it: duplicate keys in a level'),
+ 'C15_D': ('bulk-load constructor picks the level from ceil_log_base(n-1)', 'bulk-load of exactly base^L + 1 keys'),
+ 'C16_C': ('DynamicPGMIndex: index of the bulk-loaded level built lazily by the const accessor', 'freshly bulk-loaded container whose level owns an index, first queries concurrent'),
+ 'C16_D': ('MappedPGMIndex::upper_bound keeps a mutable step hint', 'duplicate run longer than the search window'),
+ 'C17_C': ('BucketingPGMIndex::build_top_level: operands of && swapped (reads segments[k] before the bound check)', 'keys spanning the key universe so that the bucket boundary overflows, n = 2 or 3'),
+ 'C17_D': ('DynamicPGMIndex::insert keeps a reference into levels across emplace_back', 'default-constructed container at the first insert that overflows the buffer into a new level'),
+ 'C18_C': ('pairwise_merge(): can_delete_permanently = i == target', 'three copies of a key on three levels with the default parameters (5000 bulk pairs, two buffer flushes)'),
+ 'C18_D': ('Iterator::advance: duplicates skipped only while unconsumed_count > 1', 'two non-empty levels, overwritten/erased key at least as large as every key outside the level of its old copy'),
+ 'C19_C': ('sdsl select_support_mcl move-assignment keeps its own long superblocks when the source has none', 'assignment of a small index over one whose select structures use long superblocks (>= ~130k segments, skewed)'),
+ 'C19_D': ('sdsl int_vector copy constructor resizes to capacity()', 'copy-constructed EliasFanoPGMIndex whose low vector has spare capacity; query at/after the last segment key'),
+ 'C20_C': ('reserved-key check moved from build() into the sequential make_segmentation overload', 'chunked construction (n >= 2^15, > 1 thread) over data ending in the reserved key'),
+ 'C20_D': ('DynamicPGMIndex::range returns early on an empty container before checking lo > hi', 'container without live elements'),
+ 'R_D5': ('reverts fix 621ba75 (regression seed, not from a sub-agent)', 'EpsilonRecursive above the CompressedPGMIndex linear threshold'),
 }
 rows = []
 for sid in sorted(os.listdir(S)):
